@@ -97,6 +97,7 @@ def check(ctx):
     d2_docs(ctx, idx, fam)
     d3_extra(ctx, idx, fam)
     d4_init(ctx, idx, fam)
+    d4_class_defaults(ctx, idx, fam)
     d5_cross(ctx, idx, fam)
     d6_helpers(ctx, idx, fam)
     d6_domains(ctx, idx, fam)
@@ -733,6 +734,76 @@ def d4_init(ctx, idx, fam):
             r.undecided('MatrixGrader.__init__ [unvalidated peek]', 'expected one conditional expression', mg.loc)
         if n_sub < 17:
             r.undecided('<constructors>', 'only %d subclass constructors found (17 reviewed)' % n_sub)
+
+
+OWN_DEFAULT_REVIEWED = {
+    'default_comparer': {'mitxgraders.formulagrader.formulagrader.FormulaGrader', 'mitxgraders.formulagrader.formulagrader.NumericalGrader',
+                         'mitxgraders.formulagrader.matrixgrader.MatrixGrader'},
+}
+
+
+META_CREATED_REVIEWED = {'default_values'}
+
+
+def d4_class_defaults(ctx, idx, fam):
+    """A class-level default that a classmethod setter writes on `cls` must exist per class: defined in the body of every
+    class of the setter's subtree (or created for every class by the metaclass).  Otherwise the setter called on a parent
+    silently changes the configuration a subclass exposes, and the same configuration gives unequal graders."""
+    r = ctx.rule('D4.CLASSDEFAULTS', 'every class-level default written by a classmethod setter on cls is owned by each class '
+                                     '(class body or metaclass), so that a setter call on one class cannot leak into another', floor=4)
+    with r:
+        setters = {}
+        for ci in fam.classes:
+            for f in ci.methods.values():
+                if not f.is_classmethod or not f.params:
+                    continue
+                cls_ = f.params[0]
+                for n in walk_own(f.node):
+                    if isinstance(n, ast.Assign):
+                        for t in n.targets:
+                            if isinstance(t, ast.Attribute) and isinstance(t.value, ast.Name) and t.value.id == cls_:
+                                setters.setdefault((ci.qualname, t.attr), []).append(f)
+        if not setters:
+            raise AnalysisError('no classmethod setter of a class-level default found')
+        # attributes the metaclass creates for every class
+        meta_attrs = set()
+        for q, mc in idx.classes.items():
+            if q.startswith('mitxgraders.') and any(b.split('.')[-1] in ('ABCMeta', 'type') for b in mc.mro[1:] + mc.bases):
+                init = mc.methods.get('__init__') or mc.methods.get('__new__')
+                if init is not None and init.params:
+                    me = init.params[0]
+                    for n in walk_own(init.node):
+                        if isinstance(n, ast.Assign):
+                            for t in n.targets:
+                                if isinstance(t, ast.Attribute) and isinstance(t.value, ast.Name) and t.value.id == me:
+                                    meta_attrs.add(t.attr)
+        for (owner_q, attr), fs in sorted(setters.items()):
+            names = sorted({f.name for f in fs})
+            if attr in meta_attrs:
+                r.ok('%s.%s' % (_cls(owner_q), attr), 'created for every class by the metaclass (setters %s)' % names, idx.cls(owner_q).loc)
+                continue
+            subtree = [idx.classes[q] for q in sorted(idx.subclasses(owner_q)) if q in idx.classes]
+            if attr in META_CREATED_REVIEWED and not any(attr in c.attrs for c in subtree):
+                r.violation('%s.%s' % (_cls(owner_q), attr), "`%s` is no longer created for every class by the metaclass (and no class "
+                            "defines it): %s either fails with AttributeError or, once one class has it, shares one registry between a "
+                            "class and its subclasses -- registered defaults of one grader class leak into the configuration of another"
+                            % (attr, '/'.join(names)), idx.cls(owner_q).loc, expected='self.%s = None in DefaultValuesMeta.__init__' % attr)
+                continue
+            reviewed = OWN_DEFAULT_REVIEWED.get(attr, set())
+            for c in subtree:
+                construct = '%s.%s [own default]' % (c.name, attr)
+                if attr in c.attrs:
+                    r.ok(construct, 'defined in the class body: %s' % short(c.attrs[attr]), c.loc)
+                elif c.qualname in reviewed:
+                    parent = next((idx.classes[q].name for q in c.mro[1:] if q in idx.classes and attr in idx.classes[q].attrs), '?')
+                    r.violation(construct, "%s no longer defines its own `%s`: it is looked up on %s, so %s.%s(...) -- a call that concerns "
+                                "another grader class -- changes what %s exposes and uses; two %s objects built from the same configuration "
+                                "before and after such a call are unequal, and the documented default of %s is no longer guaranteed"
+                                % (c.name, attr, parent, parent, names[0], c.name, c.name, c.name), c.loc,
+                                expected='%s = ... in the body of %s' % (attr, c.name), found='inherited from %s' % parent)
+                else:
+                    r.undecided(construct, 'class in the subtree of the setter %s.%s has no own `%s` and is not reviewed'
+                                % (_cls(owner_q), names[0], attr), c.loc)
 
 
 # ----------------------------------------------------------------------------- D5
@@ -1878,6 +1949,9 @@ DOMAIN_SPEC = [
     (G + 'attemptcredit.LinearCredit', 'minimum_credit', UNIT_F), (G + 'attemptcredit.GeometricCredit', 'factor', UNIT_F),
     (G + 'matrixsampling.SquareMatrixSamplingSet', 'dimension', ALL(T('int'), RANGE(2, INF))),
     (G + 'matrixsampling.SquareMatrices', 'determinant', ANY(K(None), K(0), K(1))),
+    (G + 'matrixsampling.SquareMatrixSamplingSet', 'shape', K(None)), (G + 'matrixsampling.SquareMatrices', 'shape', K(None)),
+    (G + 'matrixsampling.OrthogonalMatrices', 'shape', K(None)), (G + 'matrixsampling.UnitaryMatrices', 'shape', K(None)),
+    (G + 'matrixsampling.IdentityMatrixMultiples', 'shape', K(None)),
     (G + 'sampling.RandomFunction', 'input_dim', P_INT), (G + 'sampling.RandomFunction', 'output_dim', P_INT),
     (G + 'sampling.RandomFunction', 'num_terms', P_INT), (G + 'sampling.RandomFunction', 'amplitude', P_NUM),
     (G + 'helpers.calc.specify_domain.SpecifyDomain', 'min_length', ANY(K(None), P_INT)),
@@ -1888,7 +1962,7 @@ DOMAIN_SPEC = [
 
 
 def d6_domains(ctx, idx, fam):
-    r = ctx.rule('D6.DOMAINS', 'the numeric / enumerated options are validated with their documented domains', floor=42)
+    r = ctx.rule('D6.DOMAINS', 'the numeric / enumerated options are validated with their documented domains', floor=47)
     with r:
         for q, opt, want in DOMAIN_SPEC:
             construct = '%s[%s] domain' % (_cls(q), opt)
@@ -2604,6 +2678,10 @@ MUTANTS = [
            "    for func in blacklist:\n        if func not in default_funcs:\n            raise ConfigError(\"Unknown function in blacklist: {func}\".format(func=func))\n\n    if whitelist == [None]:\n        return\n\n    if blacklist and whitelist:\n        raise ConfigError(\"Cannot whitelist and blacklist at the same time\")\n", 'D5'),
     Mutant('early-return-before-both-lists-check', MH, "    if blacklist and whitelist:\n        raise ConfigError(\"Cannot whitelist and blacklist at the same time\")\n",
            "    if len(blacklist) == 1 or blacklist == ['sin']:\n        pass\n    if blacklist == ['sin']:\n        return\n    if blacklist and whitelist:\n        raise ConfigError(\"Cannot whitelist and blacklist at the same time\")\n", 'D5'),
+    Mutant('seeded-C20h-matrixgrader-shares-default-comparer', MGF, "    # Default comparer for MatrixGrader (independent of FormulaGrader)\n    default_comparer = staticmethod(equality_comparer)\n", "", 'D4'),
+    Mutant('numericalgrader-shares-default-comparer', FGF, "    # Default comparer for NumericalGrader (independent of FormulaGrader)\n    default_comparer = staticmethod(equality_comparer)\n", "", 'D4'),
+    Mutant('default-values-not-per-class', BASE, "        self.default_values = None\n        super(DefaultValuesMeta, self).__init__(name, bases, attrs)", "        super(DefaultValuesMeta, self).__init__(name, bases, attrs)", 'D4'),
+    Mutant('seeded-C12h-square-shape-accepted', MSAM, "        Required('shape', default=None): None,\n", "", 'D6'),
     Mutant('whitelist-blacklist-or', MH, "    if blacklist and whitelist:\n        raise ConfigError", "    if blacklist or whitelist:\n        raise ConfigError", 'D5'),
     Mutant('unordered-check-removed', LG, "            if not self.config['ordered']:\n                raise ConfigError('Cannot use unordered lists with multiple graders')\n", "", 'D5'),
     Mutant('contiguity-unreachable', LG, "        if not group_nums == set(range(1, max(group_nums) + 1)):", "        if False:", 'D5'),
